@@ -27,6 +27,7 @@ import (
 	"github.com/named-data/ndnd/fw/core"
 	"github.com/named-data/ndnd/fw/defn"
 	"github.com/named-data/ndnd/fw/dispatch"
+	"github.com/named-data/ndnd/fw/face"
 	"github.com/named-data/ndnd/fw/fw"
 	"github.com/named-data/ndnd/fw/table"
 	enc "github.com/named-data/ndnd/std/encoding"
@@ -100,6 +101,20 @@ type Config struct {
 	CsServe     bool
 	DnlLifetime time.Duration // default 6 s as shipped
 	Regions     []string      // producer regions (network region table)
+	// ThreadID is the id of the DRIVEN forwarding thread (default 0). With ThreadID > 0 the
+	// forwarder has Threads (default ThreadID+1) real threads registered in fw.Threads and
+	// dispatch; only the driven one is ever run. Packets the link service dispatches to another
+	// thread (by name hash, or by the thread id in a 6-byte PIT token) are queued there and never
+	// processed: they count as DispatchDrops. /localhost names always hash to thread 0.
+	ThreadID int
+	Threads  int
+	// RealLinkService selects the arrival path. false (default, fast): the frame is turned into a
+	// defn.Pkt by this package's field-by-field copy of handleIncomingFrame + dispatchInterest /
+	// dispatchData. true: the frame (an LpPacket when LP header fields are present, else the bare
+	// packet) is handed to a REAL face.NDNLPLinkService on an in-memory transport
+	// (hooks/fw/face/verif_export.go) and whatever it queued on the driven thread is then
+	// processed. The egress seam (recording dispatch.Face) is the same in both modes.
+	RealLinkService bool
 }
 
 // Kind of a recorded packet.
@@ -201,9 +216,12 @@ type Sim struct {
 	Thread *fw.Thread
 	Faces  map[uint64]*Face
 	log    []Send
-	// DispatchDrops counts packets the simulated link service would not hand to thread 0
-	// (6-byte PIT token naming another thread, Data that hashes to no thread).
+	// DispatchDrops counts packets the link service did not hand to the driven thread
+	// (6-byte PIT token naming another or no thread, name hashing to another or to no thread).
+	// Only maintained on the copied arrival path.
 	DispatchDrops int
+	threads       []*fw.Thread
+	links         map[uint64]*face.NDNLPLinkService
 }
 
 var logOnce sync.Once
@@ -267,11 +285,22 @@ func New(cfg Config) *Sim {
 		s.Faces[fs.ID] = f
 	}
 
-	// the thread
-	fw.VerifConfigure(8, 1)
-	s.Thread = fw.NewThread(0)
-	fw.Threads = []*fw.Thread{s.Thread}
-	dispatch.InitializeFWThreads([]dispatch.FWThread{s.Thread})
+	// the thread(s)
+	n := cfg.Threads
+	if n <= cfg.ThreadID {
+		n = cfg.ThreadID + 1
+	}
+	s.Cfg.Threads = n
+	fw.VerifConfigure(8, n)
+	s.threads = make([]*fw.Thread, n)
+	disp := make([]dispatch.FWThread, n)
+	for i := range s.threads {
+		s.threads[i] = fw.NewThread(i)
+		disp[i] = s.threads[i]
+	}
+	s.Thread = s.threads[cfg.ThreadID]
+	fw.Threads = s.threads
+	dispatch.InitializeFWThreads(disp)
 
 	// FIB contents
 	for _, sc := range cfg.Strategies {
@@ -350,16 +379,21 @@ type LP struct {
 // `wire` and whose LP header fields are `lp`, received on face `face`, followed by
 // dispatchInterest/dispatchData, followed by the forwarding thread's handling of the queued
 // packet. Returns the SendPacket calls made meanwhile.
-func (s *Sim) Inject(face uint64, wire []byte, lp LP) []Send {
-	f := s.Faces[face]
+func (s *Sim) Inject(faceID uint64, wire []byte, lp LP) []Send {
+	f := s.Faces[faceID]
 	if f == nil {
-		panic(fmt.Sprintf("fwsim: unknown face %d", face))
+		panic(fmt.Sprintf("fwsim: unknown face %d", faceID))
 	}
 	mark := len(s.log)
+	if s.Cfg.RealLinkService {
+		s.link(f).VerifHandleIncomingFrame(EncodeFrame(wire, lp))
+		s.Thread.VerifTakeQueued()
+		return s.log[mark:]
+	}
 	// "We have to copy so receive transport buffer can be reused"
 	buf := make([]byte, len(wire))
 	copy(buf, wire)
-	pkt := &defn.Pkt{IncomingFaceID: utils.IdPtr(face)}
+	pkt := &defn.Pkt{IncomingFaceID: utils.IdPtr(faceID)}
 	pkt.CongestionMark = lp.CongestionMark
 	if f.spec.CCF && lp.NextHopFaceID != nil {
 		pkt.NextHopFaceID = lp.NextHopFaceID
@@ -374,11 +408,12 @@ func (s *Sim) Inject(face uint64, wire []byte, lp LP) []Send {
 	}
 	pkt.Raw = buf
 	pkt.L3 = L3
+	me := s.Cfg.ThreadID
 	switch {
 	case L3.Interest != nil:
 		// dispatchInterest
 		pkt.Name = L3.Interest.NameV
-		if fw.HashNameToFwThread(pkt.Name) == 0 {
+		if fw.HashNameToFwThread(pkt.Name) == me {
 			s.Thread.VerifInterest(pkt)
 		} else {
 			s.DispatchDrops++
@@ -387,24 +422,83 @@ func (s *Sim) Inject(face uint64, wire []byte, lp LP) []Send {
 		// dispatchData
 		pkt.Name = L3.Data.NameV
 		if len(pkt.PitToken) == 6 {
-			if binary.BigEndian.Uint16(pkt.PitToken) == 0 {
+			if int(binary.BigEndian.Uint16(pkt.PitToken)) == me {
 				s.Thread.VerifData(pkt)
 			} else {
-				s.DispatchDrops++ // names another thread; with one thread: "Invalid PIT token - DROP"
+				s.DispatchDrops++ // names another thread, or none: "Invalid PIT token - DROP"
 			}
 		} else if f.spec.Scope == defn.Local {
-			if m := fw.HashNameToAllPrefixFwThreads(pkt.Name); len(m) > 0 && m[0] {
+			if m := fw.HashNameToAllPrefixFwThreads(pkt.Name); len(m) > me && m[me] {
 				s.Thread.VerifData(pkt)
 			} else {
 				s.DispatchDrops++
 			}
-		} else if fw.HashNameToFwThread(pkt.Name) == 0 {
+		} else if fw.HashNameToFwThread(pkt.Name) == me {
 			s.Thread.VerifData(pkt)
 		} else {
 			s.DispatchDrops++
 		}
 	}
 	return s.log[mark:]
+}
+
+// link returns (building it on first use) the real link service of a face.
+func (s *Sim) link(f *Face) *face.NDNLPLinkService {
+	if s.links == nil {
+		s.links = map[uint64]*face.NDNLPLinkService{}
+	}
+	l := s.links[f.id]
+	if l == nil {
+		o := face.MakeNDNLPLinkServiceOptions()
+		o.IsConsumerControlledForwardingEnabled = f.spec.CCF
+		l, _ = face.VerifNewMemLinkService(f.id, f.spec.Scope, f.spec.Link, defn.MaxNDNPacketSize, o)
+		s.links[f.id] = l
+	}
+	return l
+}
+
+// EncodeFrame builds the frame a peer would put on the wire: the bare packet when no LP header
+// field is present, otherwise an NDNLPv2 LpPacket (encoded with the real spec_2022 encoder)
+// carrying the packet as its only fragment.
+func EncodeFrame(wire []byte, lp LP) []byte {
+	if len(lp.PitToken) == 0 && lp.NextHopFaceID == nil && lp.CongestionMark == nil {
+		return wire
+	}
+	frag := &spec.LpPacket{Fragment: enc.Wire{wire}, NextHopFaceId: lp.NextHopFaceID, CongestionMark: lp.CongestionMark}
+	if len(lp.PitToken) > 0 {
+		frag.PitToken = lp.PitToken
+	}
+	pkt := &spec.Packet{LpPacket: frag}
+	e := spec.PacketEncoder{}
+	e.Init(pkt)
+	w := e.Encode(pkt)
+	if w == nil {
+		panic("fwsim: cannot encode LpPacket")
+	}
+	return w.Join()
+}
+
+// ThreadID is the id of the driven thread.
+func (s *Sim) ThreadID() int { return s.Cfg.ThreadID }
+
+// Token builds a PIT token in this forwarder's format naming the driven thread.
+func (s *Sim) Token(entryToken uint32) []byte { return MakeToken(uint16(s.Cfg.ThreadID), entryToken) }
+
+// NameForThread returns a one-component name "/<stem><k>" (k = 0, 1, ...) such that the name and
+// every given suffix appended to it are dispatched to the driven thread (names are hashed to
+// threads). Call it after New().
+func (s *Sim) NameForThread(stem string, suffixes ...string) string {
+	for k := 0; k < 10000; k++ {
+		base := fmt.Sprintf("/%s%d", stem, k)
+		ok := fw.HashNameToFwThread(Name(base)) == s.Cfg.ThreadID
+		for _, sfx := range suffixes {
+			ok = ok && fw.HashNameToFwThread(Name(base+sfx)) == s.Cfg.ThreadID
+		}
+		if ok {
+			return base
+		}
+	}
+	panic("fwsim: no name hashes to the driven thread")
 }
 
 // Interest injects an Interest built by MakeInterest.
